@@ -26,6 +26,13 @@ func init() {
 		Run:   runInline,
 	})
 	Register(&Rule{
+		ID:    "R-DECODESTORE",
+		Doc:   "every decode function of a proto scalar codec literal stores the decoded value into the destination on every path that returns without an error: a store guarded by a test on the decoded value itself (skip the store of an empty string, of a zero) whose other branch also returns success leaves the destination as an earlier occurrence of the field set it — in protobuf the last occurrence of a singular field wins, an explicit empty value included",
+		Props: []string{"C12", "C03"},
+		Min:   map[string]int{"C12": 8},
+		Run:   runDecodeStore,
+	})
+	Register(&Rule{
 		ID:    "R-FLAGXFORM",
 		Doc:   "sibling agreement of proto's scalar codecs: the size function and the encode function of one codec literal apply the same flag-dependent transformations to the value (the set of proto.flags methods they call on their flags parameter, e.g. flags.uint64 for the zig-zag option): a size computed without the transformation that the encoder applies disagrees with the bytes written (short buffer, or zero padding) for zig-zag tagged fields",
 		Props: []string{"C03", "C16"},
@@ -205,6 +212,126 @@ func runFlagXform(c *core.Ctx) []core.Obligation {
 	}
 	if n == 0 {
 		b.und("flagxform:-", "-", "no codec literal with size and encode functions found")
+	}
+	return b.out
+}
+
+func runDecodeStore(c *core.Ctx) []core.Obligation {
+	b := newOb(c, "R-DECODESTORE", "C12", "C03")
+	decs := map[string]*ssa.Function{}
+	for _, fn := range c.RepoFunctions() {
+		if fn.Pkg == nil || fn.Pkg.Pkg.Name() != "proto" || fn.Name() != "init" || fn.Blocks == nil {
+			continue
+		}
+		for _, blk := range fn.Blocks {
+			for _, in := range blk.Instrs {
+				st, ok := in.(*ssa.Store)
+				if !ok {
+					continue
+				}
+				fa, ok := st.Addr.(*ssa.FieldAddr)
+				if !ok || fieldNameOf(fa) != "decode" {
+					continue
+				}
+				g, ok := fa.X.(*ssa.Global)
+				if !ok || !strings.HasSuffix(g.Type().String(), "proto.codec") {
+					continue
+				}
+				if f, ok := st.Val.(*ssa.Function); ok {
+					decs[g.Name()] = f
+				}
+			}
+		}
+	}
+	var names []string
+	for n := range decs {
+		names = append(names, n)
+	}
+	sort.Strings(names)
+	n := 0
+	for _, name := range names {
+		fn := decs[name]
+		var ptr *ssa.Parameter
+		for _, p := range fn.Params {
+			if p.Type().String() == "unsafe.Pointer" {
+				ptr = p
+			}
+		}
+		if ptr == nil || fn.Blocks == nil {
+			continue
+		}
+		key := "decodestore:" + name
+		var stores []*ssa.Store
+		for _, blk := range fn.Blocks {
+			for _, in := range blk.Instrs {
+				if st, ok := in.(*ssa.Store); ok && stripConv(st.Addr) == ssa.Value(ptr) {
+					stores = append(stores, st)
+				}
+			}
+		}
+		if len(stores) == 0 {
+			// delegating decoders (append into *[]byte etc.) are out of this clause's reach
+			continue
+		}
+		n++
+		bad := ""
+		for _, st := range stores {
+			for _, e := range dominatingEdges(st.Block()) {
+				// the guard depends on what is being stored (not merely on the error)
+				valueDep := false
+				for _, src := range origins(st.Val) {
+					roots := map[ssa.Value]bool{}
+					dependsOn(src, func(x ssa.Value) bool {
+						if _, isEx := x.(*ssa.Extract); isEx {
+							roots[x] = true
+						}
+						return false
+					})
+					if dependsOn(e.ifi.Cond, func(x ssa.Value) bool { return roots[x] && !strings.HasSuffix(x.Type().String(), "error") && x.Type().String() != "int" }) {
+						valueDep = true
+					}
+				}
+				if !valueDep {
+					continue
+				}
+				// does the other branch reach a return whose error can be nil without storing?
+				other := e.ifi.Block().Succs[1-e.succ]
+				for blk := range reachableFrom(other, map[*ssa.BasicBlock]bool{st.Block(): true}) {
+					ret, ok := blk.Instrs[len(blk.Instrs)-1].(*ssa.Return)
+					if !ok || len(ret.Results) != 2 {
+						continue
+					}
+					errV := ret.Results[1]
+					if isNilConst(errV) {
+						bad = c.InstrPos(st)
+						continue
+					}
+					// an error produced on this path (fmt.Errorf, a sentinel) is a failure; the error
+					// of the low-level decode call, nil here, is success
+					if _, isEx := errV.(*ssa.Extract); isEx {
+						bad = c.InstrPos(st)
+					}
+					if phi, isPhi := errV.(*ssa.Phi); isPhi {
+						for _, pe := range phi.Edges {
+							if isNilConst(pe) {
+								bad = c.InstrPos(st)
+							}
+							if _, isEx := pe.(*ssa.Extract); isEx {
+								bad = c.InstrPos(st)
+							}
+						}
+					}
+				}
+			}
+		}
+		if bad != "" {
+			b.bad(key, bad, fmt.Sprintf("%s stores the decoded value only when a test on that value holds, and returns success without storing otherwise: an explicit empty or zero occurrence of the field does not replace what an earlier occurrence (or the caller) left in the destination — 0a 01 78 0a 00 decodes to \"x\" where the last occurrence, the empty string, wins in every protobuf implementation", fn.Name()))
+		} else {
+			b.ok(key, c.FuncPos(fn), "the decoded value is stored on every path that succeeds")
+		}
+	}
+	if n == 0 {
+		b.und("decodestore:-", "-", "no scalar decode function that stores through its pointer found")
 	}
 	return b.out
 }
